@@ -649,6 +649,18 @@ def Table.sameKernel (t : Table) : Bool := t.publicNodeFns.all (Fn.sameKernel t)
 def Table.sameKernelOffenders (t : Table) : List String :=
   (t.publicNodeFns.filter (fun f => !f.sameKernel t)).map (·.name)
 
+/-- A composite template of contrib/functions.h (one definition for both variable types):
+instantiated on Nodes it runs the same kernels on the same arguments as instantiated on Tensors. -/
+def Fn.sameKernelShared (t : Table) (f : Fn) : Bool :=
+  let ns := f.outcomes t true
+  let ts := f.outcomes t false
+  !ns.isEmpty && !ts.isEmpty &&
+  ns.all fun n => ts.all fun o => !pcCompatible n.1.pc o.1.pc || outcomeEq n o
+
+def Table.genericComposites (t : Table) : List Fn := t.sharedFns.filter (·.targ == "Var")
+
+def Table.sameKernelComposites (t : Table) : Bool := t.genericComposites.all (Fn.sameKernelShared t)
+
 /-! ## `Api.shape_rule_consistent` -/
 
 /-- The output shape expression of the device front-end (device.cc) or Tensor
